@@ -121,8 +121,10 @@ def assign_to(a, target_text):
             if dotted(t) == target_text:
                 return a.value
             if isinstance(t, (ast.Tuple, ast.List)):
-                for e in t.elts:
+                for i, e in enumerate(t.elts):
                     if dotted(e) == target_text:
+                        if isinstance(a.value, (ast.Tuple, ast.List)) and len(a.value.elts) == len(t.elts):
+                            return a.value.elts[i]      # parallel assignment
                         return a.value
     elif isinstance(a, (ast.AugAssign, ast.AnnAssign)):
         if dotted(a.target) == target_text:
